@@ -1,14 +1,448 @@
-//! C08 (stub)
+//! C08 - compilation is total, in the slice that meets the environment: every realistic source
+//! tree under every single fault of the simulated file system, and seeded combinations.
+//!
+//! The universe of faulted scenarios is a function of the tree under /repo/tests only (fixed
+//! lattices, constant universe seed). VERIF_SEED decides which residue class of it the quick
+//! tier visits, and every schedule dimension; the thorough tier visits all of it.
+
 use crate::case::Case;
-use crate::exec::{Target, TaskSpec};
-use crate::plan::Ctx;
+use crate::exec::{ExecSpec, Target, TaskSpec, run_exec};
+use crate::plan::{Ctx, STACK_MAIN, STACK_SMALL, Tier, key, snippet_fs, total_case, w1_scenarios};
 use crate::prng::Rng;
-use crate::simfs::FsSpec;
-pub fn sections(_ctx: &Ctx) -> Vec<(&'static str, u64)> { vec![] }
-pub fn cases(_ctx: &Ctx, _s: &str, _i: u64) -> Vec<Case> { vec![] }
-pub fn faulted_scenario(_ctx: &Ctx, _rng: &mut Rng, i: u64) -> (String, FsSpec, TaskSpec) {
-    let fs = crate::plan::snippet_fs("static const int x = 1;\n");
-    let mut t = TaskSpec::compile(0, "test.rssl", Target::Dx);
-    t.no_pipeline = true;
-    (format!("W4:stub#{i}"), fs, t)
+use crate::simfs::{Fault, FaultKind, FsSpec, Sel};
+use crate::w3::{self, Form, Mode};
+
+const CHUNKS: u64 = 8;
+const SNIPPET_BATCH: u64 = 32;
+const W3_BATCH: u64 = 25;
+/// Constant of the check (not VERIF_SEED): fixes the universe of fault combinations
+const UNIVERSE_SEED: u64 = 0x00C0_8C08_2026;
+
+const FAULT_SECTIONS: &[&str] = &[
+    "load-error",
+    "short-read",
+    "flip",
+    "lines",
+    "file-kinds",
+    "guard-lost",
+    "combo",
+];
+
+pub fn sections(ctx: &Ctx) -> Vec<(&'static str, u64)> {
+    let entries = ctx.corpus.entries.len() as u64;
+    let w1 = w1_scenarios(&ctx.corpus, true).len() as u64;
+    let w5 = (ctx.snippets.len() as u64).div_ceil(SNIPPET_BATCH);
+    let w3 = match ctx.tier {
+        Tier::Quick => 80,
+        Tier::Thorough => 4000,
+    } * ctx.scale;
+    let mut v = vec![("baseline-w1", w1), ("baseline-w5", w5)];
+    for s in FAULT_SECTIONS {
+        v.push((s, entries * CHUNKS));
+    }
+    v.push(("w3-total", w3));
+    v
+}
+
+/// Quick tier: how much of each section's universe is visited (1 in `stride`)
+fn quick_stride(section: &str) -> u64 {
+    match section {
+        "load-error" => 3,
+        "short-read" => 60,
+        "flip" => 16,
+        "lines" => 12,
+        "file-kinds" => 6,
+        "guard-lost" => 2,
+        "combo" => 24,
+        _ => 1,
+    }
+}
+
+struct Loaded {
+    /// canonical names in first-load order
+    files: Vec<String>,
+    loads: u64,
+}
+
+fn pre_run(fs: &FsSpec, task: &TaskSpec) -> Loaded {
+    let mut t = task.clone();
+    t.fs = 0;
+    t.faults.clear();
+    let ex = ExecSpec::single((0x51, 0x52), STACK_MAIN, t);
+    let res = run_exec(&ex, std::slice::from_ref(fs));
+    let r = &res.results[0][0];
+    let mut files = Vec::new();
+    for e in &r.events {
+        if let Some(c) = &e.resolved
+            && !files.contains(c)
+        {
+            files.push(c.clone());
+        }
+    }
+    Loaded {
+        files,
+        loads: r.events.len() as u64,
+    }
+}
+
+fn line_starts(text: &str) -> Vec<usize> {
+    std::iter::once(0)
+        .chain(text.match_indices('\n').map(|(i, _)| i + 1))
+        .filter(|o| *o <= text.len())
+        .collect()
+}
+
+/// The complete, seed-independent list of fault plans of one section for one corpus entry
+fn universe(section: &str, fs: &FsSpec, loaded: &Loaded, entry_index: usize) -> Vec<(String, Vec<Fault>)> {
+    let mut out: Vec<(String, Vec<Fault>)> = Vec::new();
+    let file = |f: &str| Sel::File(f.to_string());
+    match section {
+        "load-error" => {
+            for k in 0..loaded.loads {
+                out.push((
+                    format!("not_found@load{k}"),
+                    vec![Fault::new(FaultKind::NotFound, Sel::LoadIndex(k))],
+                ));
+                out.push((
+                    format!("not_text@load{k}"),
+                    vec![Fault::new(FaultKind::NotText, Sel::LoadIndex(k))],
+                ));
+            }
+        }
+        "short-read" => {
+            for f in &loaded.files {
+                let text = &fs.files[f];
+                let starts = line_starts(text);
+                for w in starts.windows(2) {
+                    let (a, b) = (w[0], w[1]);
+                    // at the end of the line (newline lost) and in the middle of the line
+                    if b > a + 1 {
+                        out.push((
+                            format!("short_read {f}@{}", b - 1),
+                            vec![Fault::new(FaultKind::ShortRead, file(f)).ab(b as u64 - 1, 0)],
+                        ));
+                    }
+                    if b > a + 3 {
+                        let mid = a + (b - a) / 2;
+                        out.push((
+                            format!("short_read {f}@{mid}"),
+                            vec![Fault::new(FaultKind::ShortRead, file(f)).ab(mid as u64, 0)],
+                        ));
+                    }
+                }
+            }
+        }
+        "flip" => {
+            let c = (entry_index as u64 * 13) % 97;
+            for f in &loaded.files {
+                let len = fs.files[f].len() as u64;
+                let mut o = c;
+                while o < len {
+                    let bit = (o / 97) % 7;
+                    out.push((
+                        format!("flip_bit {f}@{o}.{bit}"),
+                        vec![Fault::new(FaultKind::FlipBit, file(f)).ab(o, bit)],
+                    ));
+                    o += 97;
+                }
+            }
+        }
+        "lines" => {
+            for f in &loaded.files {
+                let n = fs.files[f].split_inclusive('\n').count() as u64;
+                let mut a = 0;
+                while a < n {
+                    for w in [1u64, 2, 8] {
+                        let b = (a + w).min(n);
+                        out.push((
+                            format!("lose_lines {f}@{a}..{b}"),
+                            vec![Fault::new(FaultKind::LoseLines, file(f)).ab(a, b)],
+                        ));
+                    }
+                    out.push((
+                        format!("dup_lines {f}@{a}..{}", (a + 2).min(n)),
+                        vec![Fault::new(FaultKind::DupLines, file(f)).ab(a, (a + 2).min(n))],
+                    ));
+                    a += 5;
+                }
+            }
+        }
+        "file-kinds" => {
+            out.push(("crlf *".into(), vec![Fault::new(FaultKind::Crlf, Sel::All)]));
+            out.push(("bom *".into(), vec![Fault::new(FaultKind::Bom, Sel::All)]));
+            for (fi, f) in loaded.files.iter().enumerate() {
+                let text = &fs.files[f];
+                out.push((format!("empty {f}"), vec![Fault::new(FaultKind::Empty, file(f))]));
+                out.push((format!("crlf {f}"), vec![Fault::new(FaultKind::Crlf, file(f))]));
+                out.push((format!("bom {f}"), vec![Fault::new(FaultKind::Bom, file(f))]));
+                let starts = line_starts(text);
+                for (n, o) in [0usize, text.len() / 3, text.len()].iter().enumerate() {
+                    out.push((
+                        format!("nul {f}@{o}"),
+                        vec![Fault::new(FaultKind::Nul, file(f)).ab(*o as u64, 0)],
+                    ));
+                    let _ = n;
+                }
+                if let Some(o) = starts.get(starts.len() / 2) {
+                    out.push((
+                        format!("nul {f}@line-start {o}"),
+                        vec![Fault::new(FaultKind::Nul, file(f)).ab(*o as u64, 0)],
+                    ));
+                }
+                // E11 hostile metadata
+                let other = loaded.files[(fi + 1) % loaded.files.len()].clone();
+                let long = "n".repeat(4096);
+                for (tag, name) in [
+                    ("empty", ""),
+                    ("collides", other.as_str()),
+                    ("long", long.as_str()),
+                    ("newline", "evil\nname.h"),
+                    ("colon", "C:\\dir\\x.h:12:3"),
+                ] {
+                    out.push((
+                        format!("real_name({tag}) {f}"),
+                        vec![Fault::new(FaultKind::RealName, file(f)).text(name)],
+                    ));
+                }
+                // E10 a second physical read sees another version
+                let half = &text[..{
+                    let mut h = text.len() / 2;
+                    while !text.is_char_boundary(h) {
+                        h -= 1;
+                    }
+                    h
+                }];
+                out.push((
+                    format!("stale(truncated) {f}"),
+                    vec![Fault::new(FaultKind::Stale, file(f)).text(half)],
+                ));
+                out.push((
+                    format!("stale(grown) {f}"),
+                    vec![Fault::new(FaultKind::Stale, file(f))
+                        .text(&format!("{text}\nstatic const int stale_version_2 = 2;\n"))],
+                ));
+            }
+        }
+        "guard-lost" => {
+            for f in &loaded.files {
+                let lines: Vec<&str> = fs.files[f].split_inclusive('\n').collect();
+                for (i, l) in lines.iter().enumerate() {
+                    let t = l.trim();
+                    let compact: String = t.chars().filter(|c| !c.is_whitespace()).collect();
+                    if compact == "#pragmaonce" {
+                        out.push((
+                            format!("lose #pragma once {f}@{i}"),
+                            vec![Fault::new(FaultKind::LoseLines, file(f)).ab(i as u64, i as u64 + 1)],
+                        ));
+                    }
+                    if compact.starts_with("#ifndef")
+                        && lines.get(i + 1).is_some_and(|n| {
+                            let n: String = n.chars().filter(|c| !c.is_whitespace()).collect();
+                            n.starts_with("#define") && n[7..] == compact[7..]
+                        })
+                    {
+                        out.push((
+                            format!("lose guard #define {f}@{}", i + 1),
+                            vec![Fault::new(FaultKind::LoseLines, file(f)).ab(i as u64 + 1, i as u64 + 2)],
+                        ));
+                    }
+                }
+                // the file includes itself at its first line: a cycle the guard (if any) must stop
+                let leaf = f.rsplit('/').next().unwrap_or(f);
+                out.push((
+                    format!("self-include {f}"),
+                    vec![Fault::new(FaultKind::InsertLines, file(f))
+                        .ab(0, 0)
+                        .text(&format!("#include \"{leaf}\"\n"))],
+                ));
+            }
+        }
+        "combo" => {
+            // up to three faults of different kinds; the later ones land in files loaded after
+            // the first one's file. Drawn from the constant universe seed.
+            let per_entry = 1200u64;
+            let singles: Vec<Vec<(String, Vec<Fault>)>> = ["short-read", "flip", "lines", "file-kinds"]
+                .iter()
+                .map(|s| universe(s, fs, loaded, entry_index))
+                .collect();
+            let mut rng = Rng::new(UNIVERSE_SEED).sub_n("combo", entry_index as u64);
+            for _ in 0..per_entry {
+                let n = rng.range(2, 3);
+                let mut kinds: Vec<usize> = (0..singles.len()).collect();
+                rng.shuffle(&mut kinds);
+                let mut label = String::new();
+                let mut faults = Vec::new();
+                let mut min_file = 0usize;
+                for k in kinds.into_iter().take(n as usize) {
+                    if singles[k].is_empty() {
+                        continue;
+                    }
+                    // bias: pick a plan whose file index is >= the previous one's
+                    let mut chosen = None;
+                    for _ in 0..6 {
+                        let c = &singles[k][rng.below(singles[k].len() as u64) as usize];
+                        let fi = match &c.1[0].sel {
+                            Sel::File(f) => loaded.files.iter().position(|x| x == f).unwrap_or(0),
+                            _ => 0,
+                        };
+                        if fi >= min_file {
+                            chosen = Some((c, fi));
+                            break;
+                        }
+                    }
+                    if let Some((c, fi)) = chosen {
+                        min_file = fi;
+                        if !label.is_empty() {
+                            label.push_str(" + ");
+                        }
+                        label.push_str(&c.0);
+                        faults.extend(c.1.iter().cloned());
+                    }
+                }
+                if faults.len() >= 2 {
+                    out.push((label, faults));
+                }
+            }
+        }
+        _ => {}
+    }
+    out
+}
+
+fn entry_task(ctx: &Ctx, entry_index: usize, n: u64) -> TaskSpec {
+    let e = &ctx.corpus.entries[entry_index];
+    let target = [Target::Dx, Target::Vk, Target::Msl][(n % 3) as usize];
+    ctx.corpus.base_task(e, target, 0)
+}
+
+pub fn cases(ctx: &Ctx, section: &str, i: u64) -> Vec<Case> {
+    let mut rng = ctx.rng().sub_n(section, i);
+    match section {
+        "baseline-w1" => {
+            let scs = w1_scenarios(&ctx.corpus, true);
+            let sc = &scs[i as usize];
+            let e = &ctx.corpus.entries[sc.entry];
+            let fs = ctx.corpus.trees[e.tree].clone();
+            vec![
+                total_case(&sc.label, fs.clone(), sc.task.clone(), key(&mut rng), STACK_SMALL),
+                total_case(&sc.label, fs, sc.task.clone(), key(&mut rng), STACK_MAIN),
+            ]
+        }
+        "baseline-w5" => {
+            let lo = (i * SNIPPET_BATCH) as usize;
+            let hi = (lo + SNIPPET_BATCH as usize).min(ctx.snippets.len());
+            let mut out = Vec::new();
+            for (n, src) in ctx.snippets[lo..hi].iter().enumerate() {
+                for target in [Target::Dx, Target::Vk, Target::Msl] {
+                    let mut t = TaskSpec::compile(0, "test.rssl", target);
+                    t.no_pipeline = true;
+                    t.buffer_address = target == Target::Vk && (lo + n) % 2 == 0;
+                    t.validate_layout = (lo + n) % 3 == 0;
+                    out.push(total_case(
+                        &format!("W5:snippet#{}@{}", lo + n, target.name()),
+                        snippet_fs(src),
+                        t,
+                        key(&mut rng),
+                        STACK_MAIN,
+                    ));
+                }
+            }
+            out
+        }
+        "w3-total" => {
+            let mut out = Vec::new();
+            for b in 0..W3_BATCH {
+                let n = i * W3_BATCH + b;
+                let mut r = ctx.rng().sub_n("w3-total", n);
+                let form = if r.chance(1, 2) { Form::Compile } else { Form::Pre };
+                let g = w3::generate(&mut r.sub("graph"), Mode::Hostile, form);
+                let mut t = w3::compile_task(&g, &mut r.sub("target"));
+                let base = crate::model::run(&g.fs, &[], &g.entry, &g.defines);
+                if r.chance(2, 3) {
+                    t.faults = crate::c12::fault_plan(&mut r.sub("faults"), &g, &base, 3);
+                }
+                // hostile metadata and stale reads on generated trees
+                if r.chance(1, 4) && !base.pasted.is_empty() {
+                    let f = r.pick(&base.pasted).clone();
+                    let name = ["", "main.rssl", "x\ny", "a:1:1"][r.below(4) as usize];
+                    t.faults
+                        .push(Fault::new(FaultKind::RealName, Sel::File(f)).text(name));
+                }
+                if r.chance(1, 4) && !base.pasted.is_empty() {
+                    let f = r.pick(&base.pasted).clone();
+                    t.faults
+                        .push(Fault::new(FaultKind::Stale, Sel::File(f)).text("#if 1\n"));
+                }
+                if r.chance(1, 8) {
+                    t.target = Target::MetalBytecode;
+                }
+                let stack = if r.chance(1, 2) { STACK_SMALL } else { STACK_MAIN };
+                out.push(total_case(
+                    &format!("W3:total#{n}"),
+                    g.fs.clone(),
+                    t,
+                    key(&mut r),
+                    stack,
+                ));
+            }
+            out
+        }
+        s if FAULT_SECTIONS.contains(&s) => {
+            let entry_index = (i / CHUNKS) as usize;
+            let chunk = i % CHUNKS;
+            let e = &ctx.corpus.entries[entry_index];
+            let fs = &ctx.corpus.trees[e.tree];
+            let loaded = pre_run(fs, &entry_task(ctx, entry_index, 0));
+            let uni = universe(s, fs, &loaded, entry_index);
+            let stride = if ctx.tier == Tier::Quick { quick_stride(s) } else { 1 };
+            let residue = ctx.rng().sub(s).sub_n("residue", entry_index as u64).below(stride);
+            let mut out = Vec::new();
+            for (n, (label, faults)) in uni.into_iter().enumerate() {
+                let n = n as u64;
+                if n % CHUNKS != chunk || (n / CHUNKS) % stride != residue {
+                    continue;
+                }
+                let mut t = entry_task(ctx, entry_index, n);
+                t.faults = faults;
+                let mut r = rng.sub_n("case", n);
+                let stack = if n % 2 == 0 { STACK_SMALL } else { STACK_MAIN };
+                out.push(total_case(
+                    &format!("W1:{}@{} {label}", e.label, t.target.name()),
+                    fs.clone(),
+                    t,
+                    key(&mut r),
+                    stack,
+                ));
+            }
+            out
+        }
+        _ => vec![],
+    }
+}
+
+/// A faulted scenario for C07's W4 section: the fault plan is part of the input
+pub fn faulted_scenario(ctx: &Ctx, rng: &mut Rng, i: u64) -> (String, FsSpec, TaskSpec) {
+    if i % 2 == 0 && !ctx.corpus.entries.is_empty() {
+        let entry_index = rng.below(ctx.corpus.entries.len() as u64) as usize;
+        let e = &ctx.corpus.entries[entry_index];
+        let fs = ctx.corpus.trees[e.tree].clone();
+        let loaded = pre_run(&fs, &entry_task(ctx, entry_index, 0));
+        let section = *rng.pick(&["load-error", "short-read", "flip", "lines", "file-kinds"]);
+        let uni = universe(section, &fs, &loaded, entry_index);
+        let mut t = entry_task(ctx, entry_index, rng.below(3));
+        let mut label = format!("W4:{}@{}", e.label, t.target.name());
+        if !uni.is_empty() {
+            let (l, f) = &uni[rng.below(uni.len() as u64) as usize];
+            t.faults = f.clone();
+            label = format!("{label} {l}");
+        }
+        (label, fs, t)
+    } else {
+        let form = if rng.chance(1, 2) { Form::Compile } else { Form::Pre };
+        let g = w3::generate(&mut rng.sub("graph"), Mode::Hostile, form);
+        let mut t = w3::compile_task(&g, &mut rng.sub("target"));
+        let base = crate::model::run(&g.fs, &[], &g.entry, &g.defines);
+        t.faults = crate::c12::fault_plan(&mut rng.sub("faults"), &g, &base, 3);
+        (format!("W4:graph#{i}"), g.fs.clone(), t)
+    }
 }
